@@ -170,6 +170,7 @@ def history_rule(ctx, body, R):
 
 
 def run(ctx):
+    _ownership(ctx)
     R1, R2, R3, R4 = 'R11.1', 'R11.2', 'R11.3', 'R11.4'
     ctx.rule(R1, 'restore-on-error (P6): no field of {attributes, observations, metric, merge_history} Dirty at an error exit')
     ctx.rule(R2, 'notifier.send: 0 times on paths to error exits, exactly once on paths to Ok exits')
@@ -242,3 +243,10 @@ def store_level(ctx, R):
         ctx.check(ok, R, bld, 'build:propagates-add_observation-error',
                   'TrackBuilder::build propagates add_observation failures',
                   'TrackBuilder::build does not propagate the result of Track::add_observation')
+
+
+def _ownership(ctx):
+    """who-may-write rows of rules/ownership.py that concern this property"""
+    import ownership
+    ctx.rule('R11.5', 'who-may-write: state this property depends on is changed only by its owners (rules/ownership.py)')
+    ctx.floor('R11.5', ownership.run(ctx, 'R11.5', 'C11'), 7)
